@@ -218,6 +218,14 @@ def ite_val(c, a, b):
         return None
     if isinstance(a, str) and a == b:
         return a
+    if isinstance(a, PyList) and isinstance(b, PyList):
+        sa, sb = a.as_seq(), b.as_seq()
+        la, lb = sa.length, sb.length
+        ln = la if (isinstance(la, int) and isinstance(lb, int) and la == lb) else z3.If(c, to_z3(la), to_z3(lb))
+        ka = sa.tag[1] if sa.tag and sa.tag[0] == "key" else None
+        kb = sb.tag[1] if sb.tag and sb.tag[0] == "key" else None
+        tag = ("key", z3.If(c, ka, kb)) if (ka is not None and kb is not None) else None
+        return PyList(Seq(ln, lambda j: ite_val(c, sa.get(j), sb.get(j)), np=a.np, tag=tag), np=a.np)
     if isinstance(a, IntMap) and isinstance(b, IntMap):
         return IntMap(lambda k: z3.If(c, a.dom(k), b.dom(k)), lambda k: ite_val(c, a.val(k), b.val(k)),
                       z3.If(c, to_z3(a.n), to_z3(b.n)), lambda p: z3.If(c, a.key_at(p), b.key_at(p)), lambda k: z3.If(c, a.pos_of(k), b.pos_of(k)))
@@ -474,7 +482,7 @@ def fresh(shape, name, wf, env=None):
         if shape.length is None:
             wf.append(n >= shape.minlen)
         get = fresh_getter(shape.elem, name, wf)
-        return PyList(Seq(n, get, np=shape.np), np=shape.np)
+        return PyList(Seq(n, get, np=shape.np, tag=("key", z3.Int(uid(name + ".key")))), np=shape.np)
     if isinstance(shape, ObjOf):
         return PyObj(shape.cls, {k: fresh(s, f"{name}.{k}", wf) for k, s in shape.fields.items()})
     if isinstance(shape, OpaqueOf):
@@ -568,7 +576,8 @@ def fresh_fn(elem, name, nidx, wf):
             vs = [z3.Int(uid("w")) for _ in range(nidx)]
             wf.append(z3.ForAll(vs, lf(*vs) >= elem.minlen, patterns=[lf(*vs)]))
         inner = fresh_fn(elem.elem, name + ".e", nidx + 1, wf)
-        return lambda *i: PyList(Seq(lenf(*i), lambda j, i=i: inner(*i, j), np=elem.np), np=elem.np)
+        keyf = z3.Function(uid(name + ".key"), *isorts, z3.IntSort())  # identity of the inner list as a value
+        return lambda *i: PyList(Seq(lenf(*i), lambda j, i=i: inner(*i, j), np=elem.np, tag=("key", keyf(*[to_z3(x) for x in i]))), np=elem.np)
     raise Unsupported(f"fresh_fn: {elem!r}")
 
 
